@@ -289,3 +289,15 @@ def run(ctx):
                              "bad retry and the healthy stream is torn down (EPROTO); without one it is undefined in OpenSSL's API", loc=f.loc(c))
     if nio < 1:
         raise Broken("C02.R7: no SSL_write in the btls transport")
+
+    # ------------------------------------------------------------------ R8
+    # a healthy byte stream must not be classified broken because ANOTHER connection of the thread had a TLS error:
+    # SSL_get_error() reads the thread's error queue first, so a protocol error must leave it drained (C07.R6's engine)
+    from . import C07 as c07
+    r8 = ctx.rule("C02.R8", "a TLS error on one connection leaves nothing on the thread's OpenSSL error queue that the next SSL_read/SSL_write of another stream would trip over")
+    pe = P.fn("process_ssl_event")
+    r8.instance(pe.qname)
+    dr = c07.DrainRule(P, pe, r8)
+    S.run(dr, pe)
+    if dr.nproto < 2:
+        raise Broken("C02.R8: protocol-error exits of process_ssl_event not found (%d)" % dr.nproto)
